@@ -438,6 +438,13 @@ pub(crate) fn uri_redirect_target(uri: &Uri, options: &host::Options) -> Option<
 #[derive(Debug, Clone)]
 pub struct RequestedUri(pub Uri);
 
+/// The internal [`Uri`] (starting with `/./`) a [`Prime`] extension answered with.
+///
+/// Stored in [`Request::extensions`] by [`handle_cache`](crate::handle_cache): the response was handled
+/// and cached under this URI instead of the request's, and its [`vary`](crate::vary) rules apply.
+#[derive(Debug, Clone)]
+pub struct InternalUri(pub Uri);
+
 /// Contains all extensions.
 /// See [kvarn.org on extensions](https://kvarn.org/extensions/) for more info.
 #[must_use]
